@@ -238,13 +238,28 @@ class Scenario:
                 args = [tid, "ok", "y" * 70000]          # larger than the pipe: the feeder blocks until a worker reads it
             elif kind == "probe":
                 args = [tid, "ok", None]
+            fn = tasks.body
+            if kind == "wrapped" and u != "u1":
+                kind, args = "ok", [tid, "ok", arg]          # one thread only mutates and sends the shared wrapped object
+            if kind == "wrapped":
+                # the same wrapper object is sent again and again; its state at submission time is part of the task
+                # (arguments are pickled later, by the feeder thread: the object may only be changed once the tasks that
+                # already carry it have been sent -- here: have completed)
+                prior = list(getattr(self, "wrapped_futs", []))
+                if prior:
+                    S.step("user.wait_wrapped", pred=lambda: all(_BASE_FUTURE[0].done(x) for x in prior))
+                w = tasks.wrapped()
+                w._obj.k = tid
+                fn, args = tasks.body_wrapped, [tid, w]
             try:
-                f = e.submit(tasks.body, *args)
+                f = e.submit(fn, *args)
             except BaseException as ex:
                 self.rejected.add(tid)
                 S.obs(ev="submit_rejected", u=u, t=tid, type=type(ex).__name__, mro=[c.__name__ for c in type(ex).__mro__])
                 return
             self.futs[tid] = f
+            if kind == "wrapped":
+                self.__dict__.setdefault("wrapped_futs", []).append(f)
             S.obs(ev="submit", u=u, t=tid, kind=kind, eid=id(e))
             f.add_done_callback(lambda fut, tid=tid: self._resolved(tid, fut))
         elif k == "cancel":
@@ -398,7 +413,8 @@ class Scenario:
             v = fut.result()
             if isinstance(v, list) and v[:1] == ["tagged"]:
                 v = ["tagged", v[1], v[2], tasks.seen_as(v[3])]
-            S.obs(ev="resolve", t=tid, outcome="result", good=(v == tasks.value_of(tid) or (isinstance(v, list) and v[:2] in (["value", tid], ["pid", tid], ["pickler", tid], ["tagged", tid]))),
+            S.obs(ev="resolve", t=tid, outcome="result", good=(v == tasks.value_of(tid) or (isinstance(v, list) and v[:2] in (["value", tid], ["pid", tid], ["pickler", tid], ["tagged", tid]))
+                                                            or v == ["wrapped", tid, tid]),
                   value=repr(v)[:60], by=esim.me())
         else:
             cause = getattr(ex, "__cause__", None)
